@@ -1,0 +1,184 @@
+//   Copyright 2025 affinitree developers
+//
+//   Licensed under the Apache License, Version 2.0 (the "License");
+//   you may not use this file except in compliance with the License.
+//   You may obtain a copy of the License at
+//
+//       http://www.apache.org/licenses/LICENSE-2.0
+//
+//   Unless required by applicable law or agreed to in writing, software
+//   distributed under the License is distributed on an "AS IS" BASIS,
+//   WITHOUT WARRANTIES OR CONDITIONS OF ANY KIND, either express or implied.
+//   See the License for the specific language governing permissions and
+//   limitations under the License.
+
+//! Instrumentation of the LP backend for runtime verification.
+//!
+//! Only compiled with `--cfg affinitree_verif`. Provides a thread-local hook that
+//! is consulted at the top of [`Polytope::solve_linprog`]. When armed, every LP
+//! call is numbered, optionally logged (query, real answer, returned answer) and
+//! optionally answered by a planned fault instead of the real solver result.
+
+use std::cell::RefCell;
+use std::collections::HashMap;
+
+use ndarray::{Array1, Array2};
+
+use crate::linalg::affine::Polytope;
+use crate::linalg::polyhedron::PolytopeStatus;
+
+/// Misbehaviour of the LP backend that can be injected at a given call.
+#[derive(Clone, Debug, PartialEq)]
+pub enum LpFault {
+    /// The solver reports an error.
+    Error,
+    /// The solver reports an unbounded problem.
+    Unbounded,
+    /// The solver returns an "optimal" point that violates the tightest
+    /// constraint by the given (normalized) distance.
+    PerturbWitness(f64),
+    /// The solver returns an "optimal" point moved by the given distance
+    /// along the outer normal of the tightest constraint.
+    FarWitness(f64),
+}
+
+/// One observed call of the LP backend.
+#[derive(Clone, Debug)]
+pub struct LpEvent {
+    pub index: usize,
+    pub mat: Array2<f64>,
+    pub bias: Array1<f64>,
+    pub cost: Array1<f64>,
+    pub real: PolytopeStatus,
+    pub returned: PolytopeStatus,
+    pub fault: Option<LpFault>,
+}
+
+#[derive(Default)]
+struct HookState {
+    armed: bool,
+    reentrant: bool,
+    counter: usize,
+    plan: HashMap<usize, LpFault>,
+    fault_all: Option<LpFault>,
+    log_enabled: bool,
+    log: Vec<LpEvent>,
+}
+
+thread_local! {
+    static STATE: RefCell<HookState> = RefCell::new(HookState::default());
+}
+
+/// Arms the hook: resets the call counter, installs the fault ``plan``
+/// (call index -> fault) and enables or disables the event log.
+pub fn arm(plan: HashMap<usize, LpFault>, fault_all: Option<LpFault>, log: bool) {
+    STATE.with(|s| {
+        let mut s = s.borrow_mut();
+        s.armed = true;
+        s.reentrant = false;
+        s.counter = 0;
+        s.plan = plan;
+        s.fault_all = fault_all;
+        s.log_enabled = log;
+        s.log.clear();
+    });
+}
+
+/// Disarms the hook and returns the number of observed calls together with the event log.
+pub fn disarm() -> (usize, Vec<LpEvent>) {
+    STATE.with(|s| {
+        let mut s = s.borrow_mut();
+        s.armed = false;
+        s.reentrant = false;
+        s.plan.clear();
+        s.fault_all = None;
+        let log = std::mem::take(&mut s.log);
+        (s.counter, log)
+    })
+}
+
+/// Number of LP calls observed since the hook was armed.
+pub fn calls() -> usize {
+    STATE.with(|s| s.borrow().counter)
+}
+
+fn apply_fault(poly: &Polytope, real: &PolytopeStatus, fault: &LpFault) -> PolytopeStatus {
+    match fault {
+        LpFault::Error => PolytopeStatus::Error("injected fault".to_owned()),
+        LpFault::Unbounded => PolytopeStatus::Unbounded,
+        LpFault::PerturbWitness(eps) | LpFault::FarWitness(eps) => {
+            let point = match real {
+                PolytopeStatus::Optimal(point) => point,
+                other => return other.clone(),
+            };
+            // find the tightest constraint with non-zero normal vector
+            let mut best: Option<(usize, f64, f64)> = None;
+            for (idx, row) in poly.mat.outer_iter().enumerate() {
+                let norm = row.iter().map(|x| x * x).sum::<f64>().sqrt();
+                if !(norm > 0.0) {
+                    continue;
+                }
+                let slack = (poly.bias[idx] - row.dot(point)) / norm;
+                if best.map_or(true, |(_, s, _)| slack < s) {
+                    best = Some((idx, slack, norm));
+                }
+            }
+            match best {
+                None => real.clone(),
+                Some((idx, slack, norm)) => {
+                    let step = match fault {
+                        LpFault::PerturbWitness(_) => slack.max(0.0) + eps,
+                        _ => *eps,
+                    };
+                    let dir = poly.mat.row(idx).to_owned() / norm;
+                    PolytopeStatus::Optimal(point + &(dir * step))
+                }
+            }
+        }
+    }
+}
+
+/// Hook consulted at the top of [`Polytope::solve_linprog`].
+///
+/// Returns ``None`` when the hook is not armed (or on the nested call that
+/// obtains the real answer), in which case the solver runs untouched.
+pub fn lp_hook(poly: &Polytope, coeffs: &Array1<f64>) -> Option<PolytopeStatus> {
+    let proceed = STATE.with(|s| {
+        let mut s = s.borrow_mut();
+        if !s.armed || s.reentrant {
+            false
+        } else {
+            s.reentrant = true;
+            true
+        }
+    });
+    if !proceed {
+        return None;
+    }
+
+    let real = poly.solve_linprog(coeffs.clone(), false);
+
+    STATE.with(|s| {
+        let mut s = s.borrow_mut();
+        s.reentrant = false;
+        let index = s.counter;
+        s.counter += 1;
+        let fault = s.plan.get(&index).cloned().or_else(|| s.fault_all.clone());
+        let returned = match &fault {
+            Some(fault) => apply_fault(poly, &real, fault),
+            None => real.clone(),
+        };
+        if s.log_enabled {
+            s.log.push(LpEvent {
+                index,
+                mat: poly.mat.clone(),
+                bias: poly.bias.clone(),
+                cost: coeffs.clone(),
+                real,
+                returned: returned.clone(),
+                fault,
+            });
+        }
+        Some(returned)
+    })
+}
